@@ -116,6 +116,7 @@ def run(ctx):
     ctx.rule("ipsc/decoders-agree", "from_ipsc_bytes and from_kaitai give equal values for every attribute")
     ctx.rule("ipsc/values", "ids are the 24 bits of octets 64..66 / 68..70 (little-endian), colour code the low nibble of octet 20, sequence number octet 4")
     ctx.rule("ipsc/reencode", "as_ipsc_bytes reproduces the 72 octets from the object of either decoder")
+    ctx.rule("ipsc/attached-frame", "the decoded frame Burst.from_hytera_ipsc leaves attached to the burst (burst.hytera_ipsc) serialises to exactly the received 72 octets")
     ctx.rule("ipsc/burst-agree", "Burst.from_hytera_ipsc builds the same burst (class, bits, type, sequence number, ids, timeslot) from raw bytes and from the parser object")
     ctx.rule("ipsc/palindromic-codes", "every 16-bit timeslot / slot-type / frame-type code has two equal octets, so the byte order in which a decoder reads it cannot matter")
     for mod, cls in (("hytera.ipsc_elements.timeslot", "Timeslot"), ("hytera.ipsc_elements.slot_type", "SlotType"), ("hytera.ipsc_elements.frame_type", "FrameType")):
@@ -313,5 +314,35 @@ def burst_agree(ctx, repo, kci, ici):
             s_ = b.attrs.get("source_radio_id")
             if not (isinstance(s_, AInt) and I.simp_bits(s_.msb_first(24)) == I.simp_bits(byte(70) + byte(69) + byte(68))):
                 bad.append(f"{who}: the burst's source id is not the frame's source id")
+        # the decoded frame that stays attached to the burst still serialises to the received 72 octets
+        fbad = []
+        for who, b in (("raw", b1), ("kaitai", b2)):
+            fr_ = b.attrs.get("hytera_ipsc")
+            if not isinstance(fr_, AObj):
+                fbad.append(f"{who}: no decoded frame attached to the burst")
+                continue
+            pl = fr_.attrs.get("payload")
+            if not isinstance(pl, (ABits, bytes, bytearray)):
+                fbad.append(f"{who}: the attached frame's payload is replaced by {describe(I, pl)} — serialising re-encodes the parsed burst instead of returning the received octets "
+                            f"(a payload with FEC-correctable errors or non-canonical bits cannot be reproduced)")
+                continue
+            out = I.call(repo.find_method(fr_.cls, "as_ipsc_bytes"), [fr_], {})
+            ob = bits_of_any(I, out)
+            wb = I.simp_bits(wire.items)
+            if ob is None or len(ob) != len(wb):
+                fbad.append(f"{who}: the attached frame serialises to {describe(I, out)}")
+            else:
+                diff = sorted({i // 8 for i, (x, y) in enumerate(zip(ob, wb)) if x != y})
+                if diff:
+                    fbad.append(f"{who}: the attached frame serialises with different octets {diff[:8]}")
+        ctx.ob("ipsc/attached-frame", f"{fh.qualname} | path {n}: {b1.cls.name}", not fbad, "; ".join(fbad[:2]) or "burst.hytera_ipsc.as_ipsc_bytes() == the received 72 octets, by either decoder", fh.loc)
         slot = [l for l in taken if "from_hytera_ipsc" in l or "is_wakeup" in l or "is_vocoder" in l]
         ctx.ob("ipsc/burst-agree", f"{fh.qualname} | path {n}: {b1.cls.name}", not bad, "; ".join(bad[:3]) or f"same {b1.cls.name}, bits, type, sequence number, ids, timeslot", fh.loc)
+
+
+def bits_of_any(I, v):
+    if isinstance(v, ABits):
+        return I.simp_bits(v.items)
+    if isinstance(v, (bytes, bytearray)):
+        return [F(0, (x >> (7 - k)) & 1) for x in v for k in range(8)]
+    return None
